@@ -210,7 +210,43 @@ def bounded(tier, seed, procs):
         if prod[0] != "val" or got != ref:
             b2.fail(Failure("multivectors", f"what=symbolic env={env}", dict(kind="ga2s", env=repr(env)), expected="reference product", actual=outcome.describe(prod)[:200],
                             functions=["MultiVector._generic_product"]))
-    return [b, b2, b_index_tuples(tier), b_same_coefficients(tier), b_scalar_operands(tier), b_default_spaces(tier), b_composite_blades(tier), b_wide(tier, seed)]
+    return [b, b2, b_index_tuples(tier), b_same_coefficients(tier), b_scalar_operands(tier), b_default_spaces(tier), b_composite_blades(tier), b_wide(tier, seed), b_hashed_operands(tier)]
+
+
+def b_hashed_operands(tier):
+    """Results of operations on a multivector that was hashed before (its hash is memoized on the object): equal to, and hashing like, the same multivector built from its data."""
+    import operator
+    import numpy as np
+    from pymbolic.geometric_algebra import MultiVector, Space
+    b = BoundedRun("hashed-operands", rule="for multivectors A (1..3 components, Fraction / int coefficients, dimensions 2..3, two metrics) hashed and put into a set first: -A, A.rev(), "
+                   "A.invol(), A.dual(), A.inv() where defined, A + A, A * 2, 2 * A, A - A, A.project(1), A ^ A, a pickled copy and a copy.copy each equal MultiVector(dict(result.data), space), hash like "
+                   "it and are found in a set holding it; A itself keeps its hash", bound="~60 multivectors x 13 operations", functions=["MultiVector.__neg__", "rev", "invol", "dual", "__hash__"])
+    import copy as _copy
+    import pickle as _pickle
+    ops = [("neg", operator.neg), ("rev", lambda a: a.rev()), ("invol", lambda a: a.invol()), ("dual", lambda a: a.dual()), ("inv", lambda a: a.inv()), ("add-self", lambda a: a + a),
+           ("times-2", lambda a: a * 2), ("2-times", lambda a: 2 * a), ("minus-self", lambda a: a - a), ("project-1", lambda a: a.project(1)), ("wedge-self", lambda a: a ^ a),
+           ("pickle", lambda a: _pickle.loads(_pickle.dumps(a))), ("copy", _copy.copy)]
+    for dim in (2, 3):
+        for g in ((1,) * dim, (1, -1, 2)[:dim]):
+            sp = Space(dim, np.diag(np.array(g, dtype=object)))
+            datas = [{1: Fraction(2, 3)}, {3: 5}, {1: 1, 2: Fraction(-1, 2)}, {0: 2, 3: Fraction(1, 3)}, {1: 2, 2: 3, (1 << dim) - 1: Fraction(7, 2)}, {0: 1}, {2: -4, 3: 1}]
+            for d in datas:
+                A = MultiVector(dict(d), sp)
+                hA = hash(A)
+                pool = {A}
+                for oname, op in ops:
+                    r = outcome.run(lambda: op(A))
+                    b.case((dim, g, repr(sorted(d.items())), oname), nontrivial=True, sample=dict(dim=dim, op=oname))
+                    if r[0] != "val":
+                        continue        # an operation that refuses this operand (inverse of a non-blade / null blade) is not judged here
+                    R = r[1]
+                    twin = MultiVector(dict(R.data), sp)
+                    ok = (R == twin) and hash(R) == hash(twin) and (R in {twin}) and (twin in {R}) and hash(A) == hA and (A in pool)
+                    if not ok:
+                        b.fail(Failure("hashed-operands", f"what={oname}-of-hashed-operand dim={dim} metric={g} a={sorted(d.items())}", dict(kind="ga-hashed", dim=dim, metric=list(g), a=repr(sorted(d.items())), op=oname),
+                                       expected="== and hash like the multivector built from the result's data", actual=f"eq={R == twin} hash_equal={hash(R) == hash(twin)} operand_hash_kept={hash(A) == hA}",
+                                       functions=[f"MultiVector.{oname}", "MultiVector.__hash__"]))
+    return b
 
 
 def b_wide(tier, seed):
